@@ -189,14 +189,7 @@ func startServer(c cfg, mon *monitor) (*engineLife, error) {
 	// discover the bound address through Engine.Dup + getsockname (retry while the engine starts)
 	if strings.HasPrefix(c.Net, "unix") {
 		el.dialNet, el.dialAddr = "unix", strings.TrimPrefix(el.addr, "unix://")
-		// wait until the socket file accepts
-		for i := 0; i < 2000; i++ {
-			if conn, err := net.Dial("unix", el.dialAddr); err == nil {
-				_ = conn.Close()
-				break
-			}
-			time.Sleep(time.Millisecond)
-		}
+		// the listener was bound and listening before OnBoot ran: no probing connection is needed
 		return el, nil
 	}
 	var lastErr error
